@@ -218,6 +218,33 @@ pub fn zt(id: u16) {
 pub fn zn(id: u16, name: &str) {
     log::log(K::Call, id, &enc64(fnv(name.as_bytes())));
 }
+/// Rendezvous of the branches of a nested thread-spawning macro: returns 0 once `parties` callers of the same group are
+/// inside at the same time, 1000 if that does not happen within 30 s (the branches were not alive together). Groups are
+/// reusable: the n-th arrival waits for arrival ceil(n / parties) * parties.
+pub fn rdv(group: u16, parties: usize) -> u64 {
+    use std::collections::HashMap;
+    use std::sync::{Condvar, Mutex};
+    static STATE: Mutex<Option<HashMap<u16, usize>>> = Mutex::new(None);
+    static CV: Condvar = Condvar::new();
+    let mut g = STATE.lock().unwrap_or_else(|e| e.into_inner());
+    let m = g.get_or_insert_with(HashMap::new);
+    let c = m.entry(group).or_insert(0);
+    *c += 1;
+    let need = (*c + parties - 1) / parties * parties;
+    CV.notify_all();
+    let deadline = std::time::Instant::now() + std::time::Duration::from_secs(30);
+    loop {
+        let have = g.as_ref().and_then(|m| m.get(&group)).copied().unwrap_or(0);
+        if have >= need {
+            return 0;
+        }
+        let now = std::time::Instant::now();
+        if now >= deadline {
+            return 1000;
+        }
+        g = CV.wait_timeout(g, deadline - now).unwrap_or_else(|e| e.into_inner()).0;
+    }
+}
 /// Drives a future of a plain value on its own current-thread runtime (async macro nested in a sync one).
 /// The runtime lives on a helper thread that carries the caller's thread name, so that this also works
 /// when the sync macro itself is being evaluated inside a task of an outer runtime.
@@ -440,7 +467,7 @@ pub fn main(twins: &'static [Twin]) {
                 nontrivial.insert(fnv(format!("{}|{}", t.id, pstr).as_bytes()));
             }
             for tag in t.tags.split(',') {
-                if tag.starts_with("op:") || tag.starts_with("w:") || tag.starts_with("sp:") || tag.starts_with("big:") || tag.starts_with("wide:") || tag.starts_with("bounds:") || tag.starts_with("nest:") || tag.starts_with("pair:") || tag.starts_with("triple:") || tag.starts_with("scope:") || tag == "shadowed" {
+                if tag.starts_with("op:") || tag.starts_with("w:") || tag.starts_with("sp:") || tag.starts_with("big:") || tag.starts_with("wide:") || tag.starts_with("bounds:") || tag.starts_with("nest:") || tag.starts_with("widenest:") || tag.starts_with("pair:") || tag.starts_with("triple:") || tag.starts_with("scope:") || tag == "shadowed" {
                     *cover.entry(tag.to_string()).or_insert(0) += 1;
                 }
             }
